@@ -1,0 +1,19 @@
+//go:build verif
+
+// Entry point for the verification harness (/verif, property C12): one round of the real pruner's
+// checkpoint + history deletion for a given (chain, base, target). No logic: it calls pruneTries.
+// Not compiled without the build tag `verif`.
+package pruner
+
+import (
+	"context"
+
+	"github.com/vechain/thor/v2/chain"
+	"github.com/vechain/thor/v2/muxdb"
+)
+
+// VerifPruneTries runs pruneTries(targetChain, base, target) of a pruner over db (no background loop).
+func VerifPruneTries(db *muxdb.MuxDB, targetChain *chain.Chain, base, target uint32) error {
+	p := &Pruner{db: db, ctx: context.Background()}
+	return p.pruneTries(targetChain, base, target)
+}
